@@ -38,8 +38,22 @@ def is_space(tok):
 _corpus_cache = None
 
 
+def docs_examples():
+    """[(docs/<file>.md#<n>, text)]: every ```penne block of the documentation (docs/errors.md has an example of erroneous
+    code for every error and lint code, so these reach diagnostics that no sample file produces)."""
+    out = []
+    for name in ("errors.md", "features.md", "syntax.md", "index.md"):
+        path = os.path.join(common.REPO, "docs", name)
+        if not os.path.isfile(path):
+            continue
+        text = common.read_text(path) or ""
+        for n, m in enumerate(re.finditer(r"```penne[^\n]*\n(.*?)```", text, re.S)):
+            out.append(("docs/%s#%d" % (name, n), m.group(1)))
+    return out
+
+
 def corpus():
-    """[(relative path, text)] of all UTF-8 .pn files in the repository."""
+    """[(relative path, text)] of all UTF-8 .pn files in the repository, and the code blocks of its documentation."""
     global _corpus_cache
     if _corpus_cache is None:
         out = []
@@ -47,6 +61,7 @@ def corpus():
             t = common.read_text(p)
             if t is not None:
                 out.append((os.path.relpath(p, common.REPO), t))
+        out += docs_examples()
         _corpus_cache = out
     return _corpus_cache
 
